@@ -94,6 +94,21 @@ def run(chk):
     tjobs = [dict(subjects=[sj], pmax=255, inits="ZeroOnly", lens="L1to3", ranks="R3z", negzero=True, depth=6, first=False)
              for sj in ["SMM", "Highest", "Lowest", "HighestIndex", "LowestIndex", "HighestLowestDelta"]]
     tokfam.emit_replay(chk, yv, "c10tok", tjobs, 6, False, False, lambda key: ":panic" in key or ":rejected" in key)
+    # ... and on long random token streams (ties, plateaus, signed zeros, every length class): a caught panic is logged as the
+    # sentinel [-999]
+    tf = os.path.join(wd, "tok_long.ndjson")
+    run_harness(yv, ["tok-record", "sel", chk.seed * 100 + 9, 140 if quick else 560, 1500, tf], timeout=3000)
+    cur = None
+    tok_steps = 0
+    for l in open(tf):
+        if '"new"' in l:
+            cur = json.loads(l)
+        elif '[-999]' in l:
+            chk.finding("%s:next:panic" % cur["subject"], {"stage": "A:token-streams", "params": cur["params"], "trace": tf})
+            break
+        else:
+            tok_steps += 1
+    chk.stage("A:token-streams", steps=tok_steps)
     # accepted instances on LONG streams (trends with ripple: hundreds of local peaks on one side of zero; steady rallies of
     # > PeriodType::MAX bars): internal counters of PeriodType width must not overflow
     os.environ["YV_LONG_REGIMES"] = "1"
